@@ -53,7 +53,12 @@ type knownFinding struct {
 	What     string `json:"what"`
 }
 
-const verifDir = "/verif"
+var verifDir = func() string {
+	if d := os.Getenv("VERIF_DIR"); d != "" {
+		return d
+	}
+	return "/verif"
+}()
 
 func loadKnown() []knownFinding {
 	var out []knownFinding
@@ -155,7 +160,9 @@ func cmdCheck(args []string) int {
 		progs[tags] = p
 		return p, nil
 	}
-	nat := sx.NewNative(repo, hdir, filepath.Join(verifDir, ".work"))
+	workDir := filepath.Join(verifDir, ".work", fmt.Sprintf("p%d", os.Getpid()))
+	defer os.RemoveAll(workDir)
+	nat := sx.NewNative(repo, hdir, workDir)
 	known := loadKnown()
 
 	inconclusive := []string{}
@@ -251,6 +258,9 @@ func cmdCheck(args []string) int {
 				}
 			}
 			fmt.Printf("  %-44s paths=%-6d done=%-6d obl=%-7d viol=%-3d queries=%-6d solver=%.1fs wall=%.1fs\n", name, res.Paths, res.Done, res.Obligations, len(res.Violations), res.Solver.Queries, res.Solver.Time.Seconds(), res.Wall.Seconds())
+			for l, n := range res.BoundPrunes {
+				fmt.Printf("    note: model capacity %q cut %d path(s) (outside the stated bound)\n", l, n)
+			}
 		}(h, p)
 	}
 	wg.Wait()
@@ -485,7 +495,9 @@ func cmdReplay(path string) int {
 	if r := os.Getenv("VERIF_REPO"); r != "" {
 		repo = r
 	}
-	nat := sx.NewNative(repo, filepath.Join(verifDir, "harness"), filepath.Join(verifDir, ".work"))
+	workDir := filepath.Join(verifDir, ".work", fmt.Sprintf("p%d", os.Getpid()))
+	defer os.RemoveAll(workDir)
+	nat := sx.NewNative(repo, filepath.Join(verifDir, "harness"), workDir)
 	ok, msg := runReplay(nat, doc, path)
 	fmt.Printf("replay %s harness=%s label=%q: reproduced=%v (%s)\n", path, doc.Harness, doc.Label, ok, msg)
 	if ok {
@@ -519,7 +531,7 @@ func writeEvidence(prop *Prop, tier string, seed int, results []*sx.RunResult, p
 		perH = append(perH, map[string]any{"harness": r.Harness, "paths": r.Paths, "paths_completed": r.Done, "paths_pruned_by_assumption": r.Killed,
 			"instructions": r.Steps, "forks": r.Forks, "assertions_checked": r.Obligations, "assertions_discharged": r.Discharged,
 			"solver_queries": r.Solver.Queries, "solver_s": round2(r.Solver.Time.Seconds()), "max_query_s": round2(r.Solver.MaxQuery.Seconds()),
-			"witnesses": r.Reached, "wall_s": round2(r.Wall.Seconds()), "map_range_sites": r.MapRangeSites})
+			"witnesses": r.Reached, "wall_s": round2(r.Wall.Seconds()), "map_range_sites": r.MapRangeSites, "paths_cut_by_model_capacity": r.BoundPrunes})
 	}
 	if len(samples) == 0 {
 		samples = append(samples, "no completed path")
